@@ -72,10 +72,23 @@ class Sessions(object):
         return self.objs[h]
 
 
-def cache_state(cache):
+SCALE = 8        # sequential histories: clock values and maxAge are given in ticks of 1/8 s (exact as floats)
+
+
+def cache_state(cache, scale=1):
     d = sorted((id_of(k), v.c18_handle) for k, v in cache.entriesDict.items())
-    lst = [None if a is None else (id_of(a), b) for a, b in cache.entriesList]
+    lst = [None if a is None else (id_of(a), int(round(b * scale))) for a, b in cache.entriesList]
     return (d, lst, cache.firstIndex, cache.lastIndex)
+
+
+MODELLED_ATTRS = {'lock', 'entriesDict', 'entriesSlot', 'entriesList', 'firstIndex', 'lastIndex', 'maxAge'}
+
+
+def unmodelled_attributes():
+    """instance attributes of a SessionCache that Model/C18_Cache.v has no field for"""
+    from tlslite.sessioncache import SessionCache
+    c = SessionCache(maxEntries=3, maxAge=5)
+    return sorted(set(vars(c)) - MODELLED_ATTRS), sorted(MODELLED_ATTRS - set(vars(c)))
 
 
 def slot_state(cache):
@@ -101,17 +114,20 @@ def do_cache_op(cache, sessions, op):
 
 
 def run_history_impl(n, max_age, hist):
-    """hist: [(t, op)], op = ('get',id) | ('put',id,s) | ('purge',) | ('valid',s,b).
-    Returns [(dict, slots, first, last, outcome, slotmap)] after every call."""
+    """hist: [(t, op)], op = ('get',id) | ('put',id,s) | ('purge',) | ('valid',s,b).  t and max_age are in
+    ticks of 1/SCALE s: the real class sees the REAL-VALUED clock t/SCALE (steps below one second, zero steps,
+    exactly maxAge, ...) and maxAge = max_age/SCALE.  Returns [(dict, slots, first, last, outcome, slotmap)]
+    after every call, timestamps converted back to ticks."""
     from tlslite.sessioncache import SessionCache
     sessions = Sessions()
     out = []
     with clock_installed(Clock()) as clk:
-        cache = SessionCache(maxEntries=n, maxAge=max_age)
+        ma = max_age // SCALE if max_age % SCALE == 0 else max_age / float(SCALE)
+        cache = SessionCache(maxEntries=n, maxAge=ma)
         for t, op in hist:
-            clk.now = t
+            clk.now = t / float(SCALE)
             r = do_cache_op(cache, sessions, op)
-            out.append(cache_state(cache) + (r, slot_state(cache)))
+            out.append(cache_state(cache, SCALE) + (r, slot_state(cache)))
     return out
 
 
@@ -468,6 +484,205 @@ def check_rsa_run(key, msgs, run):
     b, u = run['pair']
     if (b * pow(u, e, n)) % n != 1:
         return ('blinding-pair-broken', 'blinder*unblinder^e mod n = %d after the run' % ((b * pow(u, e, n)) % n))
+    return None
+
+
+# ------------------------------------------------------------------ concurrent: the whole RSA key API
+# Independent reference (RFC 8017), written without tlslite code: what each call must return for ITS OWN input.
+DIGESTINFO = {
+    'sha1': bytes.fromhex('3021300906052b0e03021a05000414'),
+    'sha256': bytes.fromhex('3031300d060960864801650304020105000420'),
+    'sha384': bytes.fromhex('3041300d060960864801650304020205000430'),
+    'sha512': bytes.fromhex('3051300d060960864801650304020305000440'),
+}
+
+
+def api_key():
+    from tlslite.utils.python_rsakey import Python_RSAKey
+    p, q = (1 << 521) - 1, (1 << 607) - 1            # Mersenne primes: a 1128-bit key, no key generation needed
+    return Python_RSAKey(n=p * q, e=65537, p=p, q=q)
+
+
+def _klen(key):
+    return (int(key.n).bit_length() + 7) // 8
+
+
+def emsa_pkcs1(key, t):
+    k = _klen(key)
+    return b'\x00\x01' + b'\xff' * (k - len(t) - 3) + b'\x00' + bytes(t)
+
+
+def pss_verify_oracle(key, mhash, sig, halg, slen):
+    import hashlib
+    n, e = int(key.n), int(key.e)
+    k = _klen(key)
+    if len(sig) != k:
+        return False
+    em_bits = n.bit_length() - 1
+    em_len = (em_bits + 7) // 8
+    m = pow(int.from_bytes(bytes(sig), 'big'), e, n)
+    try:
+        em = m.to_bytes(em_len, 'big')
+    except OverflowError:
+        return False
+    hl = hashlib.new(halg).digest_size
+    if em_len < hl + slen + 2 or em[-1] != 0xbc:
+        return False
+    masked, h = em[:em_len - hl - 1], em[em_len - hl - 1:-1]
+    zero_bits = 8 * em_len - em_bits
+    if zero_bits and masked[0] >> (8 - zero_bits):
+        return False
+    mask = b''
+    c = 0
+    while len(mask) < len(masked):
+        mask += hashlib.new(halg, h + c.to_bytes(4, 'big')).digest()
+        c += 1
+    db = bytearray(x ^ y for x, y in zip(masked, mask))
+    if zero_bits:
+        db[0] &= 0xff >> zero_bits
+    ps_len = em_len - hl - slen - 2
+    if any(db[:ps_len]) or db[ps_len] != 1:
+        return False
+    salt = bytes(db[ps_len + 1:])
+    return hashlib.new(halg, b'\x00' * 8 + bytes(mhash) + salt).digest() == h
+
+
+def api_prepare(key, op, rng):
+    """fill in the inputs that need the key (ciphertexts, signatures to verify)"""
+    import hashlib
+    n, e, d = int(key.n), int(key.e), int(key.d)
+    k = _klen(key)
+    if op[0] == 'decrypt':
+        m = bytes(op[1])
+        ps = bytes(rng.randrange(1, 256) for _ in range(k - 3 - len(m)))
+        em = b'\x00\x02' + ps + b'\x00' + m
+        return ('decrypt', m, pow(int.from_bytes(em, 'big'), e, n).to_bytes(k, 'big'))
+    if op[0] == 'hashAndVerify':
+        m, halg, good = bytes(op[1]), op[2], op[3]
+        em = emsa_pkcs1(key, DIGESTINFO[halg] + hashlib.new(halg, m).digest())
+        sig = bytearray(pow(int.from_bytes(em, 'big'), d, n).to_bytes(k, 'big'))
+        if not good:
+            sig[-1] ^= 1
+        return ('hashAndVerify', m, halg, good, bytes(sig))
+    return op
+
+
+def do_api_op(key, op):
+    try:
+        if op[0] == 'sign':
+            return ('ret', bytes(key.sign(bytearray(op[1]), 'pkcs1', op[2])))
+        if op[0] == 'hashAndSign':
+            return ('ret', bytes(key.hashAndSign(bytearray(op[1]), op[2], op[3], op[4] if len(op) > 4 else 0)))
+        if op[0] == 'decrypt':
+            r = key.decrypt(bytearray(op[2]))
+            return ('ret', None if r is None else bytes(r))
+        if op[0] == 'encrypt':
+            return ('ret', bytes(key.encrypt(bytearray(op[1]))))
+        if op[0] == 'hashAndVerify':
+            return ('ret', bool(key.hashAndVerify(bytearray(op[4]), bytearray(op[1]), 'PKCS1', op[2])))
+        raise ValueError(op)
+    except Exception as e:      # noqa
+        return ('exc', type(e).__name__)
+
+
+def api_expected(key, op, r):
+    """None if r is what the call must return for its own input, else a text"""
+    import hashlib
+    n, e, d = int(key.n), int(key.e), int(key.d)
+    k = _klen(key)
+    if r[0] != 'ret':
+        return 'raised %s' % r[1]
+    v = r[1]
+    if op[0] in ('sign', 'hashAndSign') and not (op[0] == 'hashAndSign' and op[2].upper() == 'PSS'):
+        if op[0] == 'sign':
+            t = (DIGESTINFO[op[2]] if op[2] else b'') + bytes(op[1])
+        else:
+            t = DIGESTINFO[op[3]] + hashlib.new(op[3], bytes(op[1])).digest()
+        want = pow(int.from_bytes(emsa_pkcs1(key, t), 'big'), d, n).to_bytes(k, 'big')
+        if v != want:
+            got = pow(int.from_bytes(v, 'big'), e, n).to_bytes(k, 'big')
+            return 'signature is not the signature of this thread\'s message: it opens to ...%s, expected ...%s' % (
+                got[-8:].hex(), emsa_pkcs1(key, t)[-8:].hex())
+        return None
+    if op[0] == 'hashAndSign':
+        mh = hashlib.new(op[3], bytes(op[1])).digest()
+        return None if pss_verify_oracle(key, mh, v, op[3], op[4] if len(op) > 4 else 0) else \
+            'PSS signature does not verify for this thread\'s message'
+    if op[0] == 'decrypt':
+        return None if v == op[1] else 'decrypt returned %r, the plaintext is %r' % (v, op[1])
+    if op[0] == 'encrypt':
+        em = pow(int.from_bytes(v, 'big'), d, n).to_bytes(k, 'big')
+        ok = em[:2] == b'\x00\x02' and 0 in em[2:] and em.index(0, 2) >= 10 and em[em.index(0, 2) + 1:] == bytes(op[1])
+        return None if ok else 'ciphertext does not decrypt to this thread\'s plaintext'
+    if op[0] == 'hashAndVerify':
+        return None if v == op[3] else 'hashAndVerify returned %r, expected %r' % (v, op[3])
+    return 'unknown op'
+
+
+class rng_installed_api(rng_installed):
+    """also the copies of getRandomBytes that rsakey.py / python_rsakey.py imported with `from ... import *`"""
+
+    def __enter__(self):
+        rng_installed.__enter__(self)
+        from tlslite.utils import rsakey, python_rsakey
+        self.more = [(m, m.getRandomBytes) for m in (rsakey, python_rsakey) if hasattr(m, 'getRandomBytes')]
+        for m, _ in self.more:
+            m.getRandomBytes = self.f
+        return self
+
+    def __exit__(self, *a):
+        for m, f in self.more:
+            m.getRandomBytes = f
+        rng_installed.__exit__(self, *a)
+
+
+def run_api_schedule(key, threads, preempts, seed, opcode=False):
+    """threads: per thread a list of prepared API calls on the one shared key; pre-emption points at every
+    line (bytecode) of rsakey.py and python_rsakey.py"""
+    import random
+    key.blinder = 0
+    key.unblinder = 0
+    key._lock = CoopLock()
+    # state a previous run may have left on the object must not leak into this one
+    base = getattr(key, '_c18_attrs', None)
+    if base is None:
+        key._c18_attrs = base = set(vars(key)) | {'_c18_attrs'}
+    for a in list(vars(key)):
+        if a not in base:
+            delattr(key, a)
+    if hasattr(key, '_key_hash'):
+        key._key_hash = None
+    results = [[] for _ in threads]
+    sched = Sched(len(threads), preempts, traced=('tlslite/utils/rsakey.py', 'tlslite/utils/python_rsakey.py'),
+                  opcode=opcode)
+    key._lock.sched = sched
+
+    def body(i):
+        def f():
+            for op in threads[i]:
+                results[i].append(do_api_op(key, op))
+        return f
+    with rng_installed_api(random.Random(seed)):
+        sched.run([body(i) for i in range(len(threads))])
+    key._lock.sched = None
+    return {'results': results, 'sched': sched, 'lock_held': key._lock.held,
+            'pair': (int(key.blinder), int(key.unblinder))}
+
+
+def check_api_run(key, threads, run):
+    sched = run['sched']
+    if sched.failure or sched.deadlock or any(e is not None for e in sched.errors) or run['lock_held']:
+        return ('deadlock-or-crash', 'failure=%r deadlock=%r errors=%r' % (
+            sched.failure, sched.deadlock, [repr(e) for e in sched.errors]))
+    for i, (ops, rs) in enumerate(zip(threads, run['results'])):
+        for op, r in zip(ops, rs):
+            bad = api_expected(key, op, r)
+            if bad:
+                return ('wrong-result:%s' % op[0], 'thread %d: %s(%s...): %s' % (i, op[0], bytes(op[1])[:8].hex(), bad))
+    b, u = run['pair']
+    n, e = int(key.n), int(key.e)
+    if b and (b * pow(u, e, n)) % n != 1:
+        return ('blinding-pair-broken', 'blinder*unblinder^e mod n != 1 after the run')
     return None
 
 
